@@ -6,6 +6,10 @@ int bvp_jmp_armed = 0;
 
 static void quiet(const char *msg) { (void)msg; }
 
+/* set when the library called the abort handler (or exit): the objects it was working on are in an
+ * undefined state; nothing more is asked of them, and `reset` drops them without freeing */
+int bvp_poisoned = 0;
+
 static int op_reset(int argc, char **argv)
    {
    (void)argc; (void)argv;
@@ -23,6 +27,7 @@ static int op_reset(int argc, char **argv)
    bufr_set_debug(0);
    bufr_set_verbose(0);
    switch_reset();
+   bvp_poisoned = 0;
    fputs("ok", bvp_out);
    return 0;
    }
@@ -100,6 +105,12 @@ int main(int argc, char **argv)
       if (*p == 0 || *p == '#') continue;
       while ((tok = strsep(&p, " ")) != NULL && nt < MAXTOK)
          if (*tok) toks[nt++] = tok;
+      if (bvp_poisoned && !(nt == 1 && strcmp(toks[0], "reset") == 0))
+         {
+         fputs("poisoned\n", bvp_out);
+         fflush(bvp_out);
+         continue;
+         }
       for (t = 0; tables[t] && !found; t++)
          {
          struct op_entry *e;
@@ -111,8 +122,8 @@ int main(int argc, char **argv)
                bvp_jmp_armed = 1;
                jr = setjmp(bvp_jmp);
                if (jr == 0) e->fn(nt, toks);
-               else if (jr == 1) fputs("abort", bvp_out);
-               else fputs("exit", bvp_out);
+               else if (jr == 1) { fputs("abort", bvp_out); bvp_poisoned = 1; }
+               else { fputs("exit", bvp_out); bvp_poisoned = 1; }
                bvp_jmp_armed = 0;
                fputc('\n', bvp_out);
                break;
